@@ -425,6 +425,9 @@ func (fv *FuncVC) execRange(x *ast.RangeStmt, st *State) *State {
 			idxName = lx.lc.Index
 		}
 		st.ghosts[idxName] = Val{"0", SInt, it}
+		if lx.lc != nil && lx.lc.Coll != "" {
+			st.ghosts[lx.lc.Coll] = coll // the ranged expression is evaluated once: give it a name for the invariants
+		}
 		ls := &loopSpec{lx: lx, label: label, pos: x.Pos(), vars: vars}
 		ls.prepHead = func(head *State) {
 			idx := fv.th.freshConst(idxName, SInt)
